@@ -499,6 +499,16 @@ def run_seq(drvname, actions, init=0):
         if prob is not None:
             note(("after", actions[:i + 1], prob))
             return False
+    if SEL.get("c09"):
+        # file-level members the container declares as supported work on every driver
+        for member in sorted(MetadorContainer._self_SUPPORTED - {"close"}):
+            try:
+                v = getattr(mc, member)
+                if callable(v):
+                    v()
+            except Exception as e:  # noqa
+                note(("file-level member declared as supported fails on this driver", member, drvname, type(e).__name__, str(e)[:80]))
+                return False
     # closing and reopening: the index rebuilt from disk equals the incrementally maintained one
     mc = drv.reopen(mc)
     prob = check_all(mc, md)
